@@ -63,7 +63,13 @@ def conf_text(pools):
 
 
 def conf_trees(text):
-    return clist(cjson(t) for t in json.loads(text, object_pairs_hook=lambda p: O(p)))
+    try:
+        return clist(cjson(t) for t in json.loads(text, object_pairs_hook=lambda p: O(p)))
+    except ValueError:
+        # the text is not ONE JSON document (trailing text, two documents glued together ...): json.Unmarshal rejects it before
+        # any pool is decoded.  The JSON grammar is not part of the plugin model (Model/Pool.v starts from trees; C20's own phase
+        # covers the decoder): a stand-in tree that decode_pools rejects
+        return "[JBool true]"
 
 
 # ------------------------------------------------------------------ history generator
